@@ -1168,6 +1168,17 @@ pub fn drive_ec(t: &mut Tracer, tier: &str, seed: u64, plan: Option<String>) {
     }
     // ---- operands computed by the specification (PlanField) so that a Montgomery product lands in [m, 2^256): the rare branch of the final correction ----
     for v in read_plan(&plan) {
+        if v["kind"] == "samey" {
+            // two DIFFERENT curve points with the same y (the specification solved x^2 + x1 x + x1^2 + a = 0): a sum that decides
+            // "same point" from one coordinate only doubles here
+            let mk = |x: &[u8], y: &[u8]| Point { x: verif::fp_to_mont(&be_u256(x)), y: verif::fp_to_mont(&be_u256(y)), z: verif::fp_to_mont(&[1, 0, 0, 0]) };
+            let (p1, p2) = (mk(&arr(&v["x1"]), &arr(&v["y"])), mk(&arr(&v["x2"]), &arr(&v["y"])));
+            let (j1, j2) = (rerandomize(&p1, &lam(&mut rng)), rerandomize(&p2, &lam(&mut rng)));
+            for (a, b) in [(p1, p2), (p2, p1), (j1, p2), (p1, j2), (j1, j2), (p1, p2.neg()), (j2.neg(), j1)] {
+                ec_event(t, &sess(), "ec.add", json!({"p": pt_json(&a), "q": pt_json(&b)}), gp(|| a.point_add(&b)));
+            }
+            continue;
+        }
         let (a, b, f) = (arr(&v["a"]), arr(&v["b"]), v["f"].as_str().unwrap_or("").to_string());
         let (au, bu) = (be_u256(&a), be_u256(&b));
         if v["kind"] == "fp" {
